@@ -245,8 +245,8 @@ Qed.
 Lemma wake_builds_leftover : forall x c, sendloop x = true -> NoDup (inb x) ->
   (forall c', In c' (inb x) -> e_st (ent (core x) c') = Queued) ->
   In c (inb x) -> e_canceled (ent (core x) c) = false ->
-  exists x1 x2 lim i, xstep x XWake = Some x1 /\ core x1 = core x /\ inb x1 = inb x
-    /\ xstep x1 (XBuildRound lim (inb x)) = Some x2 /\ e_st (ent (core x2) c) = Built i /\ inb x2 = [].
+  exists x1, xstep x XWake = Some x1 /\ core x1 = core x /\ inb x1 = inb x
+    /\ forall lim, exists x2 i, xstep x1 (XBuildRound lim (inb x)) = Some x2 /\ e_st (ent (core x2) c) = Built i /\ inb x2 = [].
 Proof.
   intros x c HS ND HQ Hin HC.
   assert (Hw : xstep x XWake = Some (mkSys (core x) (chq x) (inb x) (pri x) (asy x) (sendloop x) true (idle x))).
@@ -254,19 +254,19 @@ Proof.
   set (x1 := mkSys (core x) (chq x) (inb x) (pri x) (asy x) (sendloop x) true (idle x)).
   destruct (build_labels_succeeds (inb x) (ent (core x)) (next_id (core x)) (core x) ND eq_refl) as [s' Hr].
   { intros c' Hc'. split; auto. }
-  assert (G : round_guard x1 None (inb x) = true).
-  { unfold round_guard, x1; simpl. rewrite HS. simpl. unfold round_ok, quota_ok.
+  assert (G : forall lim, round_guard x1 lim (inb x) = true).
+  { intros lim. unfold round_guard, x1; simpl. rewrite HS. simpl. unfold round_ok, quota_ok.
     rewrite (nodupb_of_NoDup _ ND). simpl.
     assert (A : forallb (fun t => memb t (inb x)) (inb x) = true) by (apply forallb_forall; intros t Ht; now apply memb_In).
     rewrite A. simpl.
     assert (B : forallb (fun r => memb r (inb x) || ((pri x r <? high_pri) && forallb (fun t => pri x r <=? pri x t) (inb x))) (inb x) = true).
     { apply forallb_forall. intros r Hr0. apply memb_In in Hr0. now rewrite Hr0. }
     rewrite B. reflexivity. }
-  exists x1. eexists. exists None.
-  assert (Hx2 : xstep x1 (XBuildRound None (inb x)) = Some (mkSys s' (chq x) (filter (fun c0 => negb (memb c0 (inb x))) (inb x)) (pri x) (asy x) (sendloop x) false (idle x))).
+  exists x1. split; [exact Hw|]. split; [reflexivity|]. split; [reflexivity|]. intros lim. eexists.
+  assert (Hx2 : xstep x1 (XBuildRound lim (inb x)) = Some (mkSys s' (chq x) (filter (fun c0 => negb (memb c0 (inb x))) (inb x)) (pri x) (asy x) (sendloop x) false (idle x))).
   { unfold xstep. rewrite G. unfold x1; cbn [core inb chq pri asy sendloop]. rewrite Hr. reflexivity. }
   destruct (build_labels_popped _ _ _ _ _ ND Hr c Hin) as [(P & _)|(_ & i & Q & _)]; [congruence|].
-  exists i. split; [exact Hw|]. split; [reflexivity|]. split; [reflexivity|]. split; [exact Hx2|]. split; [exact Q|].
+  exists i. split; [exact Hx2|]. split; [exact Q|].
   cbn [inb]. apply filter_none. intros a Ha. apply memb_In in Ha. now rewrite Ha.
 Qed.
 
